@@ -6,7 +6,7 @@ in terminal states.  DESIGN.md 3.3."""
 import json, os, re, shutil, subprocess, sys, time, collections
 
 TLA_JAR = "/opt/veriftools/tla/tla2tools.jar"
-GHOST_KEYS = ("bad", "done", "taint3", "taint4", "taint5")
+GHOST_KEYS = ("bad", "done", "taint3", "taint4", "taint5", "taint6")
 CM_JAR = "/opt/veriftools/tla/CommunityModules-deps.jar"
 
 
